@@ -35,7 +35,8 @@ BOUNDS = {
              '3 digits are symbolic (first digit 2, 4 or 5), a malformed line, '
              'a disconnect or silence (timeout), the rest succeeding; all '
              'RCPT outcome vectors; the same with the first recipient refused '
-             '(550) beforehand; a second message on a reused connection; '
+             '(550) beforehand, and with 3 recipients of which the first two '
+             'are refused differently (550, 452); a second message on a reused connection; '
              'pipe relays (generic per-recipient, maildrop, dovecot-lda): '
              'symbolic exit status -3..255, output from a menu with symbolic '
              'first bytes, timeout; HTTP relay: symbolic status 200..599, '
@@ -71,6 +72,11 @@ def cells(tier):
                     'pre_reject': 1})
     out.append({'kind': 'smtp', 'lmtp': 1, 'pipe': 1, 'n': 2,
                 'pre_reject': 1})
+    # two earlier recipients refused with DIFFERENT replies (550, 452), the
+    # third one is the first accepted; then any fault at any stage
+    for pipe in (0, 1):
+        out.append({'kind': 'smtp', 'lmtp': 0, 'pipe': pipe, 'n': 3,
+                    'pre_reject': 2})
     # the same address twice, before another recipient
     out.append({'kind': 'smtp', 'lmtp': 0, 'pipe': 1, 'n': 3, 'dup': 1})
     out.append({'kind': 'smtp', 'lmtp': 0, 'pipe': 0, 'n': 3, 'dup': 1})
@@ -183,6 +189,8 @@ def run_smtp(cell):
     if cell.get('pre_reject') and fault != ('RCPT', 0):
         # an earlier, non-fatal 5xx: the first recipient is refused
         over[('RCPT', 0)] = ('reply', '550', ['5.1.1 no such user'])
+    if cell.get('pre_reject') == 2 and fault != ('RCPT', 1):
+        over[('RCPT', 1)] = ('reply', '452', ['4.2.2 mailbox full'])
     ext = ('PIPELINING', '8BITMIME') if pipe else ('8BITMIME',)
     peers = []
 
@@ -453,6 +461,23 @@ def judge_smtp(result, peer, rcpts, lmtp, fault, fkind, fcode, info, first):
                               'failure-although-peer-accepted', rcpt=r,
                               **info)
                 check_class(v, info, rcpt=r)
+                # a recipient the peer accepted, DATA then refused with a
+                # 4xx / 5xx code: that refusal is the recipient's outcome
+                rc = [a[1] for st, a, _ in peer.log
+                      if st == 'RCPT' and a[0] == 'reply'] \
+                    if peer is not None else []
+                if fkind == 'code' and fault and fault[0] == 'DATA' and \
+                        fcode is not None and len(rc) == len(rcpts) and \
+                        rcpts.count(r) == 1 and \
+                        api.decide(rc[rcpts.index(r)][0:1] == '2'):
+                    if api.decide(fcode[0:1] == '4'):
+                        api.prove(isinstance(v, TransientRelayError),
+                                  'data-4xx-not-transient-for-accepted-'
+                                  'recipient', rcpt=r, **info)
+                    elif api.decide(fcode[0:1] == '5'):
+                        api.prove(isinstance(v, PermanentRelayError),
+                                  'data-5xx-not-permanent-for-accepted-'
+                                  'recipient', rcpt=r, **info)
         return
     # whole-message RelayError (the converse - an error although the peer
     # accepted - is only judged when the script has no fault at all)
@@ -462,8 +487,11 @@ def judge_smtp(result, peer, rcpts, lmtp, fault, fkind, fcode, info, first):
     if isinstance(val, PermanentRelayError) and peer is not None:
         # a permanent failure of the whole message bounces every recipient:
         # none of them may have been merely deferred (4xx) by the peer
+        # (only when the peer accepted MAIL: the pipelined RCPT replies of a
+        # script whose MAIL was refused belong to no transaction)
+        mail_ok = not (fault and fault[0] == 'MAIL')
         for stage, action, arg in peer.log:
-            if stage == 'RCPT' and action[0] == 'reply':
+            if mail_ok and stage == 'RCPT' and action[0] == 'reply':
                 api.prove(action[1][0:1] != '4',
                           'deferred-recipient-reported-as-permanent-failure',
                           rcpt_reply=action[1], **info)
